@@ -10,7 +10,7 @@ from .base import Check, Outcome, InvalidScenario
 from . import wcommon as W
 from .c06 import gen_wire_ws, type_features
 
-BOUNDARY_CAPS = [1, 2, 254, 255, 256, 257, 65534, 65535, 65536, 65537, 2**32 - 1, 2**32, 2**32 + 1, 2**48, 2**63]
+BOUNDARY_CAPS = [1, 2, 254, 255, 256, 257, 65534, 65535, 65536, 65537, 2**32 - 1, 2**32, 2**32 + 1, 2**48, 2**53 + 1, 2**56 + 1, 2**63, 2**64 - 1]
 VARIANTS = [2, 3, 255, 256, 257]
 
 
